@@ -69,15 +69,22 @@ def sec_result_apply(rep):
 
     rep.under_contract(ESFResult.apply_pdf, EXSResult.apply_pdf)
     pids_all = [22, -2, -1, 21, 1, 2]
-    for npid in (1, 2, 3):
+    import itertools
+
+    # every subset of provided flavours (which positions of ``pids`` the PDF lacks matters: the
+    # operator row of a provided flavour must stay aligned with its position in ``pids``)
+    combos = [(npid, have) for npid in (1, 2, 3) for have in itertools.product((True, False), repeat=npid)]
+    for npid, have in combos:
         for ng in (1, 2, 3):
             for keys in ([(0, 0, 0, 0)], [(0, 0, 0, 0), (1, 0, 0, 0), (1, 0, 0, 1)], [(2, 0, 1, 0), (2, 1, 0, 2), (3, 0, 2, 1), (1, 0, 0, 0)]):
                 for cls in ("ESF", "EXS"):
+                    if not all(have) and (ng == 2 or len(keys) == 3) and cls == "EXS":
+                        continue  # the partial-flavour patterns are explored on a thinner product
                     rep.cases += 1
                     sy = H.Sy(extra="xiR xiF")
                     pre = [sy.Q2 > 0, sy.xiR > 0, sy.xiF > 0, sy.x > 0]
 
-                    def case(sy, npid=npid, ng=ng, keys=keys, cls=cls):
+                    def case(sy, npid=npid, ng=ng, keys=keys, cls=cls, have=have):
                         sqrt, log = _fns(sy)
                         pids = pids_all[:npid] if npid < 3 else [21, 1, -2]
                         xgrid = [0.1, 0.4, 0.9][:ng]
@@ -89,7 +96,7 @@ def sec_result_apply(rep):
                                 for j in range(ng):
                                     v[a, j], e[a, j] = sy.U("v", str(k), a, j), sy.U("e", str(k), a, j)
                             orders[k] = (v, e) if not sy.is_numeric else (v.astype(float), e.astype(float))
-                        flavors = set(pids[: max(1, npid - 1)])  # the last pid is not provided by the PDF (if more than one)
+                        flavors = {p_ for p_, h_ in zip(pids, have) if h_}
                         pdf = PDF(sy, flavors)
                         r = ESFResult(sy.x, sy.Q2, 4, orders) if cls == "ESF" else EXSResult(sy.x, sy.Q2, sy.y, 4, orders)
                         binds = [] if sy.is_numeric else [(resmod, "np", NumpyShim())]
@@ -106,7 +113,7 @@ def sec_result_apply(rep):
                             res.append(("y", out["y"], sy.y))
                         return res
 
-                    rep.check(f"C17/{cls}Result.apply_pdf/post/pids={npid}/grid={ng}/orders={len(keys)}", case, sy, pre, sides=(npid == 1 and ng == 1))
+                    rep.check(f"C17/{cls}Result.apply_pdf/post/pids={npid}/provided={''.join('y' if h_ else 'n' for h_ in have)}/grid={ng}/orders={len(keys)}", case, sy, pre, sides=(npid == 1 and ng == 1))
     # Q2 not a number -> ValueError
     r = ESFResult(0.1, None, 4, {})
     try:
@@ -231,7 +238,10 @@ def sec_theory(rep):
             self.kw = kw
             CouplingsStub.created.append(self)
 
+        last_used = None
+
         def a_s(self, scale, nf_to=None):
+            CouplingsStub.last_used = self
             return sy.U("a_s", scale, nf_to)
 
     class AtlasStub:
@@ -241,11 +251,21 @@ def sec_theory(rep):
             self.matching_scales, self.origin = list(matching_scales), origin
             AtlasStub.created.append(self)
 
-    for fns, nf_ff in (("FFNS", 3), ("FFNS", 4), ("FFN0", 5), ("FONLL-FFNS", 4), ("FONLL-FFN0", 3), ("ZM-VFNS", 3), ("bogus", 3)):
+    used_atlas = []
+    # history: the calls run in ONE process on cards that share (alphas, Qref, PTO, ModEv) and differ
+    # in masses, matching ratios and reference nf -- the coupling USED by each call (not merely the
+    # last one constructed) must be the one of that call's card
+    cases = (("FFNS", 3), ("FFNS", 4), ("FFN0", 5), ("FONLL-FFNS", 4), ("FONLL-FFN0", 3), ("ZM-VFNS", 3), ("ZM-VFNS", 4), ("bogus", 3))
+    for i, (fns, nf_ff) in enumerate(cases):
         rep.cases += 1
-        th = H.base_theory(FNS=fns, NfFF=nf_ff, XIR=0.5, XIF=2.0, alphaqed=0.0078, kcThr=1.2, kbThr=0.8, ktThr=1.0)
+        th = H.base_theory(FNS=fns, NfFF=nf_ff, XIR=0.5, XIF=2.0, alphaqed=0.0078, kcThr=1.2 + 0.05 * i, kbThr=0.8 + 0.03 * i, ktThr=1.0 + 0.01 * i)
+        th["mc"] *= 1 + 0.02 * i
+        th["mb"] *= 1 + 0.01 * i
+        th["nfref"] = 5 if i % 2 == 0 else 4
         CouplingsStub.created.clear()
         AtlasStub.created.clear()
+        CouplingsStub.last_used = None
+        del used_atlas[:]
         got = {}
 
         def fake_apply(self, pdf, alpha_s, alpha_qed, xiR, xiF):
@@ -254,7 +274,7 @@ def sec_theory(rep):
 
         o = Output()
         exc = None
-        with rebind((outmod, "Couplings", CouplingsStub), (outmod, "Atlas", AtlasStub), (outmod, "nf_default", lambda mu2, atlas: sy.U("nf_default", mu2, id(atlas) and "atlas")), (Output, "apply_pdf_alphas_alphaqed_xir_xif", fake_apply)):
+        with rebind((outmod, "Couplings", CouplingsStub), (outmod, "Atlas", AtlasStub), (outmod, "nf_default", lambda mu2, atlas: (used_atlas.append(atlas), sy.U("nf_default", mu2, id(atlas) and "atlas"))[1]), (Output, "apply_pdf_alphas_alphaqed_xir_xif", fake_apply)):
             try:
                 r = o.apply_pdf_theory("PDF", th)
             except Exception as e:  # noqa
@@ -266,15 +286,19 @@ def sec_theory(rep):
         if exc is not None:
             rep.add(ob_eval(name + "/no-exception", False, detail=repr(exc)))
             continue
-        c = CouplingsStub.created[-1].kw
-        a = AtlasStub.created[-1]
+        if CouplingsStub.last_used is None or (fns == "ZM-VFNS" and not used_atlas):
+            rep.add(ob_eval(name + "/alpha_s uses a Couplings object (and, in ZM-VFNS, an Atlas)", False, detail="alpha_s(muR) did not reach Couplings.a_s / nf_default"))
+            continue
+        c = CouplingsStub.last_used.kw
+        a = used_atlas[-1] if used_atlas else (AtlasStub.created[-1] if AtlasStub.created else None)
         m2 = [th["mc"] ** 2, th["mb"] ** 2, th["mt"] ** 2]
         k2 = [th["kcThr"] ** 2, th["kbThr"] ** 2, th["ktThr"] ** 2]
         ok_c = [abs(x - y) < 1e-12 * y for x, y in zip(c["masses"], m2)] and all(abs(x - y) < 1e-12 for x, y in zip(c["thresholds_ratios"], k2))
         ok_c = ok_c and abs(c["couplings"].alphas - th["alphas"]) < 1e-15 and abs(c["couplings"].scale - th["Qref"]) < 1e-12 and c["couplings"].num_flavs_ref == th["nfref"] and tuple(c["order"]) == (th["PTO"] + 1, th["QED"])
-        rep.add(ob_eval(name + "/Couplings(reference value, scale, nf, order, squared masses and ratios from the card)", bool(ok_c), detail=str({k: str(v)[:60] for k, v in c.items()})))
-        ok_a = all(abs(x - y * z) < 1e-9 * max(1, y * z) for x, y, z in zip(a.matching_scales, m2, k2)) and abs(a.origin[0] - th["Qref"] ** 2) < 1e-9 and a.origin[1] == th["nfref"]
-        rep.add(ob_eval(name + "/Atlas(matching scales m^2 k^2, origin Qref^2, nfref)", ok_a, detail=f"{a.matching_scales} {a.origin}"))
+        rep.add(ob_eval(name + "/Couplings used (reference value, scale, nf, order, squared masses and ratios of THIS card)", bool(ok_c), detail=str({k: str(v)[:60] for k, v in c.items()})))
+        if a is not None:
+            ok_a = all(abs(x - y * z) < 1e-9 * max(1, y * z) for x, y, z in zip(a.matching_scales, m2, k2)) and abs(a.origin[0] - th["Qref"] ** 2) < 1e-9 and a.origin[1] == th["nfref"]
+            rep.add(ob_eval(name + "/Atlas used (matching scales m^2 k^2, origin Qref^2, nfref of THIS card)", ok_a, detail=f"{a.matching_scales} {a.origin}"))
         val = got["alpha_s_at_muR"]
         if fns == "ZM-VFNS":
             exp = sy.U("a_s", sy.muR**2, sy.U("nf_default", sy.muR**2, "atlas")) * 4 * math.pi
